@@ -35,6 +35,7 @@ from beartype._util.cls.utilclstest import is_type_subclass
 from beartype._util.error.utilerrwarn import issue_warning
 from beartype._util.kind.maplike.utilmapfrozen import FrozenDict
 from beartype._util.text.utiltextidentifier import is_identifier
+from beartype._util.utilobjtest import is_object_hashable
 from collections.abc import (
     Collection as CollectionABC,
 )
@@ -150,7 +151,8 @@ def die_if_conf_kwargs_invalid(conf_kwargs: DictStrToAny) -> None:
     Raises
     ------
     BeartypeConfParamException
-        If one or more configurations parameter in this dictionary are invalid.
+        If one or more configurations parameter in this dictionary are invalid
+        or unhashable.
     '''
 
     # ..................{ MANUALLY                           }..................
@@ -296,6 +298,22 @@ def die_if_conf_kwargs_invalid(conf_kwargs: DictStrToAny) -> None:
                 f'value {repr(conf_kwargs[arg_name_exception_subclass])} not '
                 f'exception type.'
             )
+        # Else, the value of this keyword parameter is an exception subclass.
+
+    # For the name and value of each keyword parameter...
+    for arg_name, arg_value in conf_kwargs.items():
+        # If this value is unhashable, raise an exception. Configurations are
+        # memoized on (and thus hash) the values of all keyword parameters.
+        #
+        # Note that this includes otherwise valid values like the list
+        # "claw_skip_package_names=['muh_package']". Since configurations are
+        # immutable, mutable values are prohibited. Pass a tuple or frozen set.
+        if not is_object_hashable(arg_value):
+            raise BeartypeConfParamException(
+                f'Beartype configuration parameter "{arg_name}" '
+                f'value {repr(arg_value)} unhashable.'
+            )
+        # Else, this value is hashable.
 
 # ....................{ DEPRECATORS                        }....................
 def issue_warning_deprecated_option(
